@@ -963,6 +963,10 @@ func (u *UDPConn) WriteTo(b []byte, addr net.Addr) (int, error) {
 	if len(b) > MaxUDPPayload {
 		return 0, opErr("write", "udp", u.local, addr, os.NewSyscallError("sendto", syscall.EMSGSIZE))
 	}
+	if ua.Port == 0 {
+		// the kernel refuses destination port 0
+		return 0, opErr("write", "udp", u.local, addr, os.NewSyscallError("sendto", syscall.EINVAL))
+	}
 	if ua.IP == nil || ua.IP.IsUnspecified() {
 		// sendto the unspecified address: the local host
 		ua = &net.UDPAddr{IP: net.IPv4(127, 0, 0, 1), Port: ua.Port}
